@@ -293,6 +293,36 @@ def cli_cases(tier):
                 continue
             for fmt in ('text', 'json'):
                 out.append((family, pol, peer, fmt))
+    out += multi_cert_cases()
+    return out
+
+
+RSACERT, EDCERT = 'rsa-sha2-512-cert-v01@openssh.com', 'ssh-ed25519-cert-v01@openssh.com'
+
+
+def multi_cert_cases():
+    """peers presenting several host keys (each measured on a connection of its own, one after the other): certificates signed by
+    different kinds of CA, next to plain keys; policies stating the true sizes, a wrong size for one of them, and minimum sizes"""
+    out = []
+    cas = {'rsa4096': ('ssh-rsa', 4096), 'rsa2048': ('ssh-rsa', 2048), 'ed': ('ssh-ed25519', 256), 'ec384': ('ecdsa-sha2-nistp384', 384)}
+    for ca1, ca2 in itertools.permutations(sorted(cas), 2):
+        hks = {RSACERT: {'hostkey_size': 3072, 'ca_key_type': cas[ca1][0], 'ca_key_size': cas[ca1][1]},
+               EDCERT: {'hostkey_size': 256, 'ca_key_type': cas[ca2][0], 'ca_key_size': cas[ca2][1]}}
+        for plain in ([], ['rsa-sha2-512']):
+            peer = dict(BASE_PEER, key=[RSACERT, EDCERT] + plain, host_keys=dict(hks))
+            if plain:
+                peer['host_keys']['rsa-sha2-512'] = {'hostkey_size': 2048, 'ca_key_type': '', 'ca_key_size': 0}
+            true = {t: dict(v) for t, v in peer['host_keys'].items()}
+            pols = [{'larger': False, 'hostkey_sizes': true}, {'larger': True, 'hostkey_sizes': true}]
+            for t in (RSACERT, EDCERT):
+                for delta in (-8, 8) if true[t]['ca_key_type'] == 'ssh-rsa' else (256,):
+                    wrong = {k: dict(v) for k, v in true.items()}
+                    wrong[t]['ca_key_size'] = true[t]['ca_key_size'] + delta
+                    pols.append({'larger': False, 'hostkey_sizes': wrong})
+                    pols.append({'larger': True, 'hostkey_sizes': wrong})
+            for pol in pols:
+                for fmt in ('text', 'json'):
+                    out.append(('multi-cert', pol, peer, fmt))
     return out
 
 
@@ -303,7 +333,12 @@ def work_cli(chunk, st):
             f.write(R.policy_text(pol))
         hk = {}
         for t, v in peer['host_keys'].items():
-            hk[t] = wire.rsa_blob_tree(v['hostkey_size']) if 'rsa' in t else wire.ed25519_blob_tree()
+            if '-cert-' in t:
+                cat = v.get('ca_key_type')
+                ca_tree = wire.rsa_blob_tree(v['ca_key_size']) if cat == 'ssh-rsa' else wire.ed25519_blob_tree(b'\x44' * 32) if cat == 'ssh-ed25519' else wire.ecdsa_blob_tree(int(cat[-3:]))
+                hk[t] = wire.rsa_cert_tree(v['hostkey_size'], ca_tree) if 'rsa' in t else wire.ed25519_cert_tree(ca_tree)
+            else:
+                hk[t] = wire.rsa_blob_tree(v['hostkey_size']) if 'rsa' in t else wire.ed25519_blob_tree()
         gex = None
         if peer['dh']:
             gex = P.GexPolicy([list(peer['dh'].values())[0]], P.STRICT)
